@@ -40,6 +40,7 @@ type Ctx struct {
 	seen      map[uint64]struct{}
 	counters  map[string]int64
 	samples   []interface{}
+	samplePer map[string]int
 	sampleCap int
 	evals     int64
 	viols     int64
@@ -295,16 +296,31 @@ func (c *Ctx) Note(name, v string) {
 func (c *Ctx) Sample(v interface{}) {
 	c.mu.Lock()
 	defer c.mu.Unlock()
-	if len(c.samples) < c.sampleCap {
-		c.samples = append(c.samples, v)
+	// at most 2 samples per stream, so that every stream of a check shows up in the evidence
+	key := ""
+	if m, ok := v.(map[string]interface{}); ok {
+		if s, ok := m["stream"].(string); ok {
+			key = s
+		}
 	}
+	if c.samplePer == nil {
+		c.samplePer = map[string]int{}
+	}
+	if c.samplePer[key] >= 2 && key != "" || len(c.samples) >= 12 {
+		return
+	}
+	if key == "" && c.samplePer[key] >= c.sampleCap {
+		return
+	}
+	c.samplePer[key]++
+	c.samples = append(c.samples, v)
 }
 
 // WantSample reports whether more samples are wanted.
 func (c *Ctx) WantSample() bool {
 	c.mu.Lock()
 	defer c.mu.Unlock()
-	return len(c.samples) < c.sampleCap
+	return len(c.samples) < 12
 }
 
 func (c *Ctx) snapLocked(final bool) {
